@@ -13,7 +13,15 @@ from __future__ import annotations
 
 import threading
 
+class SimCancel(BaseException):
+    """A cancellation / interrupt delivered at a fault point: like KeyboardInterrupt it is *not* an Exception, so
+    clean-up written as ``except Exception: restore(); raise`` does not see it (``finally`` / ``with`` do)."""
+
+
+CATCH = (Exception, SimCancel)
+
 EXC = {
+    "SimCancel": SimCancel,
     "FloatingPointError": FloatingPointError,
     "MemoryError": MemoryError,
     "OverflowError": OverflowError,
@@ -72,7 +80,7 @@ def _lib_hit(name):
     ctx.lib_calls += 1
     pl = ctx.plan.get("lib")
     if pl is not None and pl[0] == ctx.lib_calls:
-        ctx.fired.append(("lib", name, ctx.lib_calls))
+        ctx.fired.append(("lib", name, ctx.lib_calls, pl[1]))
         counters.fired["lib"] += 1
         raise make_fault(pl[1], f"lib.{name} call #{ctx.lib_calls}")
 
@@ -85,7 +93,7 @@ def _alloc_hit(name):
     ctx.alloc_calls += 1
     pl = ctx.plan.get("alloc")
     if pl is not None and pl[0] == ctx.alloc_calls:
-        ctx.fired.append(("alloc", name, ctx.alloc_calls))
+        ctx.fired.append(("alloc", name, ctx.alloc_calls, pl[1]))
         counters.fired["alloc"] += 1
         raise make_fault(pl[1], f"{name} call #{ctx.alloc_calls} in a backend wrapper")
 
@@ -231,7 +239,7 @@ def _flt_hit(opname):
     ctx.flt_calls += 1
     pl = ctx.plan.get("flt")
     if pl is not None and pl[0] == ctx.flt_calls:
-        ctx.fired.append(("flt", opname, ctx.flt_calls))
+        ctx.fired.append(("flt", opname, ctx.flt_calls, pl[1]))
         counters.fired["flt"] += 1
         raise make_fault(pl[1], f"SimFloat.{opname} call #{ctx.flt_calls}")
 
